@@ -6,6 +6,7 @@ import CC.ChaCha.Lemmas
 import CC.ChaCha.Stream
 import CC.ChaCha.Keystream
 import CC.Thm.C02
+import CC.ChaCha.Src
 namespace CC.Thm.C01
 open CC CC.Simd CC.ChaCha CC.ChaCha.Spec
 
@@ -56,5 +57,90 @@ example :
       = [0x10#8, 0xf1#8, 0xe7#8, 0xe4#8, 0xd1#8, 0x3b#8, 0x59#8, 0x15#8,
          0x50#8, 0x0f#8, 0xdd#8, 0x1f#8, 0xa3#8, 0x20#8, 0x71#8, 0xc4#8] := by
   decide +kernel
+
+/-- **Source tie.**  The arithmetic kernels of `guts.rs` (`round`, `diagonalize`, `undiagonalize`, at `M::u32x4`
+    and at `M::u32x4x4`), as TRANSLATED from the Rust source on every run by tools/inventory_kernels.py into
+    `CC.Gen.Kernels`, equal the hand-written model definitions all theorems above are about; so do the
+    constants ("expand 32-byte k", counter increments, block / buffer sizes, `BIG_LEN`, `SMALL_LEN`) and the
+    (nonce size, double rounds, X) parameters of the seven public cipher types.  Individual facts:
+    `CC.Src.src_chacha_*` (lean/CC/ChaCha/Src.lean).  Trusted: the operator/method ↦ `Mach` field table printed
+    in the header of lean/CC/Gen/Kernels.lean. -/
+theorem source_kernels_match :
+    CC.Gen.Kernels.chacha_errors = [] ∧
+    (CC.ChaCha.round = fun M x => CC.Src.rsOf (CC.Gen.Kernels.chacha_round M x.a x.b x.c x.d)) ∧
+    (CC.ChaCha.diagonalize = fun M x => CC.Src.rsOf (CC.Gen.Kernels.chacha_diagonalize M x.a x.b x.c x.d)) ∧
+    (CC.ChaCha.undiagonalize = fun M x => CC.Src.rsOf (CC.Gen.Kernels.chacha_undiagonalize M x.a x.b x.c x.d)) ∧
+    (CC.ChaCha.round4 = fun M x => CC.Src.rs4Of (CC.Gen.Kernels.chacha_round4 M x.a x.b x.c x.d)) ∧
+    (CC.ChaCha.diagonalize4 = fun M x => CC.Src.rs4Of (CC.Gen.Kernels.chacha_diagonalize4 M x.a x.b x.c x.d)) ∧
+    (CC.ChaCha.undiagonalize4 = fun M x => CC.Src.rs4Of (CC.Gen.Kernels.chacha_undiagonalize4 M x.a x.b x.c x.d)) ∧
+    (CC.Gen.Kernels.chacha_k_literals ≠ [] ∧
+      ∀ k ∈ CC.Gen.Kernels.chacha_k_literals, k = [Spec.c0, Spec.c1, Spec.c2, Spec.c3]) ∧
+    CC.Gen.Kernels.chacha_ctr_literals = [[0, 0], [1, 0], [2, 0], [3, 0]] ∧
+    (CC.Gen.Kernels.chacha_BLOCK = 64 ∧ CC.Gen.Kernels.chacha_BLOCK64 = 64 ∧ CC.Gen.Kernels.chacha_BUFBLOCKS = 4 ∧
+      CC.Gen.Kernels.chacha_BUFSZ64 = 256 ∧ CC.Gen.Kernels.chacha_BUFSZ = 256 ∧
+      CC.Gen.Kernels.chacha_BIG_LEN = BIG_LEN ∧ CC.Gen.Kernels.chacha_SMALL_LEN = SMALL_LEN) ∧
+    CC.Gen.Kernels.chacha_variants =
+      CC.Src.chachaModelVariants.map (fun nv => (nv.1, nv.2.nonceLen, nv.2.drounds, nv.2.layout == .x)) ∧
+    (∀ nv ∈ CC.Src.chachaModelVariants, CC.Drv.ChaCha.variantOfName nv.1.toLower = some nv.2) :=
+  ⟨CC.Src.src_chacha_clean, CC.Src.src_chacha_round, CC.Src.src_chacha_diagonalize, CC.Src.src_chacha_undiagonalize,
+   CC.Src.src_chacha_round4, CC.Src.src_chacha_diagonalize4, CC.Src.src_chacha_undiagonalize4, CC.Src.src_chacha_k,
+   CC.Src.src_chacha_ctr_increments, CC.Src.src_chacha_sizes, CC.Src.src_chacha_variants,
+   CC.Src.src_chacha_variants_driver⟩
+
+/-- **Source tie, block-level code.**  The code AROUND the kernels of `guts.rs` / `rustcrypto_impl.rs`, as TRANSLATED from
+    the Rust on every run (tools/inventory_kernels_code.py → `CC.Gen.Kernels`: `&mut` parameters threaded, `for _ in
+    0..drounds` as `iter`, stores into `out` as byte segments, `dispatch!` wrappers instantiated with the machine),
+    equals the model definitions the theorems above (and C02, C11, C14, C15) are about: `pos64`, `seek64`, `seek32`,
+    `inc_block_ct`, `d0123`, `add_pos`, `refill_narrow_rounds`, `refill_narrow` (= `ChaCha::refill`), `refill_wide_impl`
+    (= `ChaCha::refill4`), `set_stream_param` / `get_stream_param` (every `u32` parameter), `stream32_eq`, `stream64_eq`,
+    `read_u32le`, `ChaCha::new` and `init_chacha` (nonce lengths 8 and 12), both copies of `init_chacha_x`.
+    `drounds: u32` is the loop count `dr.toNat`; `out` is overwritten entirely (its old content is unused).
+    Individual facts: `CC.Src.src_chacha_*` (lean/CC/ChaCha/Src.lean). -/
+theorem source_code_match :
+    CC.Gen.Kernels.chacha_errors = [] ∧
+    (pos64 = fun M s => CC.Gen.Kernels.chacha_pos64 M s.b s.c s.d) ∧
+    (seek64 = fun M s ct => CC.Src.gutsOf (CC.Gen.Kernels.chacha_seek64 M s.b s.c s.d ct)) ∧
+    (seek32 = fun M s ct => CC.Src.gutsOf (CC.Gen.Kernels.chacha_seek32 M s.b s.c s.d ct)) ∧
+    (incBlockCt = fun M s => CC.Src.gutsOf (CC.Gen.Kernels.chacha_inc_block_ct M s.b s.c s.d)) ∧
+    d0123 = CC.Gen.Kernels.chacha_d0123 ∧ addPos = CC.Gen.Kernels.chacha_add_pos ∧
+    (∀ (M : Mach) (s : Guts) (dr : BitVec 32),
+      refillNarrowRounds M s dr.toNat = CC.Src.rsOf (CC.Gen.Kernels.chacha_refill_narrow_rounds M s.b s.c s.d dr)) ∧
+    (∀ (M : Mach) (s : Guts) (dr : BitVec 32) (out : List (BitVec 8)),
+      refill M s dr.toNat = (let r := CC.Gen.Kernels.chacha_refill_narrow M s.b s.c s.d dr out;
+                             (r.2.2.2, CC.Src.gutsOf (r.1, r.2.1, r.2.2.1)))) ∧
+    (∀ (M : Mach) (s : Guts) (dr : BitVec 32) (out : List (BitVec 8)),
+      refill4 M s dr.toNat = (let r := CC.Gen.Kernels.chacha_refill_wide_impl M s.b s.c s.d dr out;
+                              (r.2.2.2, CC.Src.gutsOf (r.1, r.2.1, r.2.2.1)))) ∧
+    (CC.Gen.Kernels.chacha_refill4 = CC.Gen.Kernels.chacha_refill_wide_impl ∧
+     CC.Gen.Kernels.chacha_refill = CC.Gen.Kernels.chacha_refill_narrow ∧
+     CC.Gen.Kernels.chacha_refill_rounds = CC.Gen.Kernels.chacha_refill_narrow_rounds) ∧
+    (∀ (s : Guts) (param : BitVec 32) (value : BitVec 64),
+      setStreamParam s param.toNat value =
+        (CC.Gen.Kernels.chacha_set_stream_param s.b s.c s.d param value >>= fun r => .ok (CC.Src.gutsOf r))) ∧
+    (∀ (s : Guts) (param : BitVec 32),
+      getStreamParam s param.toNat = CC.Gen.Kernels.chacha_get_stream_param s.b s.c s.d param) ∧
+    (stream32Eq = fun a b => CC.Gen.Kernels.chacha_stream32_eq a.b a.c a.d b.b b.c b.d) ∧
+    (stream64Eq = fun a b => CC.Gen.Kernels.chacha_stream64_eq a.b a.c a.d b.b b.c b.d) ∧
+    read32le = CC.Gen.Kernels.chacha_read_u32le ∧
+    (∀ key nonce : List (BitVec 8), nonce.length = 8 →
+      gutsNew key nonce = CC.Src.gutsOf (CC.Gen.Kernels.chacha_new_8 key nonce)) ∧
+    (∀ key nonce : List (BitVec 8), nonce.length = 12 →
+      gutsNew key nonce = CC.Src.gutsOf (CC.Gen.Kernels.chacha_new_12 key nonce)) ∧
+    (∀ (M : Mach) (key nonce : List (BitVec 8)), nonce.length = 8 →
+      initChaCha M key nonce = CC.Src.gutsOf (CC.Gen.Kernels.chacha_init_chacha_8 M key nonce)) ∧
+    (∀ (M : Mach) (key nonce : List (BitVec 8)), nonce.length = 12 →
+      initChaCha M key nonce = CC.Src.gutsOf (CC.Gen.Kernels.chacha_init_chacha_12 M key nonce)) ∧
+    (∀ (M : Mach) (key nonce : List (BitVec 8)) (dr : BitVec 32),
+      initChaChaX M key nonce dr.toNat = CC.Src.gutsOf (CC.Gen.Kernels.chacha_init_chacha_x M key nonce dr)) ∧
+    (∀ (M : Mach) (key nonce : List (BitVec 8)) (dr : BitVec 32),
+      initChaChaX M key nonce dr.toNat = CC.Src.gutsOf (CC.Gen.Kernels.chacha_init_chacha_x_guts M key nonce dr)) :=
+  ⟨CC.Src.src_chacha_clean, CC.Src.src_chacha_pos64, CC.Src.src_chacha_seek64, CC.Src.src_chacha_seek32,
+   CC.Src.src_chacha_inc_block_ct, CC.Src.src_chacha_d0123, CC.Src.src_chacha_add_pos,
+   CC.Src.src_chacha_refill_narrow_rounds, CC.Src.src_chacha_refill_narrow, CC.Src.src_chacha_refill_wide_impl,
+   ⟨CC.Src.src_chacha_refill4, CC.Src.src_chacha_refill, CC.Src.src_chacha_refill_rounds⟩,
+   CC.Src.src_chacha_set_stream_param, CC.Src.src_chacha_get_stream_param,
+   CC.Src.src_chacha_stream32_eq, CC.Src.src_chacha_stream64_eq, CC.Src.src_chacha_read_u32le,
+   CC.Src.src_chacha_new_8, CC.Src.src_chacha_new_12, CC.Src.src_chacha_init_chacha_8, CC.Src.src_chacha_init_chacha_12,
+   CC.Src.src_chacha_init_chacha_x, CC.Src.src_chacha_init_chacha_x_guts⟩
 
 end CC.Thm.C01
